@@ -469,10 +469,10 @@ Proof.
     destruct r1; try (inversion H; subst; exists []; rewrite app_nil_r; exact Hd).
     destruct (flush_if_streaming_facts _ _ _ H) as [[x Hx] _]. exists x. rewrite Hx, Hd. reflexivity.
   - unfold flush in H. destruct (end_all _ _) as [st1 r1] eqn:Ee. destruct (end_all_dest _ _ _ _ Ee) as [Hd _].
-    destruct r1; try (inversion H; subst; exists []; rewrite app_nil_r; exact Hd).
+    destruct r1; try (inversion H; subst; exists []; rewrite app_nil_r; first [exact Hd | reflexivity]).
     destruct (private_flush_facts _ _ _ H) as [[x Hx] _]. exists x. rewrite Hx, Hd. reflexivity.
   - unfold flush in H. destruct (end_all _ _) as [st1 r1] eqn:Ee. destruct (end_all_dest _ _ _ _ Ee) as [Hd _].
-    destruct r1; try (inversion H; subst; exists []; rewrite app_nil_r; exact Hd).
+    destruct r1; try (inversion H; subst; exists []; rewrite app_nil_r; first [exact Hd | reflexivity]).
     destruct (private_flush_facts _ _ _ H) as [[x Hx] _]. exists x. rewrite Hx, Hd. reflexivity.
 Qed.
 
